@@ -214,6 +214,7 @@ def adopt_model_tokens(impl, model):
 
 
 def lines_equal(impl, model):
+    model = model.replace("!drift", "")
     if impl == model or canon_impl(impl) == model:
         return True
     if impl.startswith("[") and model.startswith("["):
